@@ -9,6 +9,7 @@ import re
 
 from .. import regexlang as rx
 from ..astutil import call_attr, calls_in, guard_facts, parent_map, unparse, walk_local, text_facts
+from ..cfg import CFG
 from ..report import Finding, Report
 from ..rx_extract import all_compiles
 from ..srcindex import AnalysisError, FuncInfo, Index, dotted, raw_funcs
@@ -534,6 +535,41 @@ def check_tuple_index(idx: Index, rep: Report) -> None:
         else:
             r.fail(f"{g.fq}:[{key}]", Finding("C07.R5", g.fq, "index-upper-bound", f"`{unparse(n)}` is not guarded by a comparison of `{key}` with the tuple size: `%0#7` raises IndexError", f"{g.module.relpath}:{n.lineno}"))
 
+
+    # upper bound where the index subscripts a tuple of SSA values
+    from ..astutil import range_bounds
+    from ..dataflow import resolved_text as _rt
+
+    n_sub = 0
+    for g in raw_funcs(mi):
+        if g.cls is None or g.cls.name != "Parser":
+            continue
+        gcfg = None
+        for sub in walk_local(g.node):
+            if not (isinstance(sub, ast.Subscript) and isinstance(sub.ctx, ast.Load) and not isinstance(sub.slice, (ast.Slice, ast.Constant, ast.Tuple))):
+                continue
+            if gcfg is None:
+                gcfg = CFG(g.node)
+            try:
+                at = gcfg.node_of(sub)
+            except Exception:
+                continue
+            base = _rt(gcfg, sub.value, at)
+            if not (re.fullmatch(r"self\.ssa_values\[[^\]]+\]", unparse(sub.value)) or (g.name == "_register_ssa_definition" and unparse(sub.value) == "values")):
+                continue
+            ix = unparse(sub.slice)
+            n_sub += 1
+            facts = text_facts(g.node, sub)
+            _, upper = range_bounds(facts, ix)
+            sizes = {f"len({base})", f"len({unparse(sub.value)})"}
+            ok_ = any(u.endswith(" - 1") and (u[:-4] in sizes or _rt(gcfg, ast.parse(u[:-4], mode="eval").body, at) in sizes) for u in upper)
+            inst = f"{g.fq}:{unparse(sub)[:40]}"
+            if ok_:
+                r.ok(inst, f"{mi.relpath}:{sub.lineno} `{ix}` < size tested before `{unparse(sub)}`")
+            else:
+                r.fail(inst, Finding("C07.R5", g.fq, "index-upper-bound", f"`{unparse(sub)}` is reached with `{ix}` known only to satisfy {sorted('<= ' + u for u in upper) or 'nothing'}: `%v#N` with N equal to (or above) the number of results raises IndexError instead of a diagnostic", f"{mi.relpath}:{sub.lineno}"))
+    if n_sub < 2:
+        raise AnalysisError(f"{mi.relpath}: only {n_sub} tuple-element accesses of SSA value tuples found (expected resolve_operand, parse_optional_operand, _register_ssa_definition)")
 
 def check(idx: Index, rep: Report, tier: str) -> str:
     rep.run(check_redos, idx, rep, tier)
